@@ -24,6 +24,10 @@ CHECKS = {
  'C03': dict(engine='P', technique='bounded-exhaustive program enumeration + exhaustive native execution (origin tokens) vs real backtrace analysis; structural trace validation',
              text='The C01 program space with additional origin calls; for every token natively found in a backtrace-point argument some reported trace of that argument must contain the originating call (eager and on-demand), and every reported trace must end at the entry argument and be step-connected.',
              note='origins = calls only (constants/parameters not tracked natively); connectedness check is liberal', ref='§6 C03'),
+
+ 'C17': dict(engine='L+P', technique='invariant evaluation over every summary node/edge after the real analyses + explicit-state search of the built-summary subset lattice (all BuildSummary orders replayed on fresh states)',
+             text='I(G) (out<->in with tuple index, call node<->Callsites, closure node<->ReferringMakeClosures, global read/write location sets) is evaluated after taint and backtrace, eager and on-demand, on every program; for programs with few user functions every subset of built summaries is reached through every order: I(G) holds in every state, the canonical graph depends only on the subset, and the top equals the eager graph.',
+             note='public accessors only; lattice limited to <=4 (quick) / <=5 (thorough) user functions', ref='§6 C17'),
 }
 NA = []
 def main():
